@@ -146,7 +146,7 @@ def parse_sections(ans):
     for sec in ans.split("|"):
         if sec == "-" or sec == "":
             out.append([])
-        elif sec in ("ginv", "not-ginv", "no-pinv"):
+        elif sec in ("ginv", "not-ginv", "no-pinv", "pinv", "not-pinv", "keyerror"):
             out.append(sec)
         else:
             out.append([_tok(t) for row in sec.split(";") for t in row.split(",") if t != "-"])
@@ -221,7 +221,11 @@ def impl_cross(A, w, L1, L2, perm):
             attempt(b.nsi_cross_transitivity, P1, P2), attempt(b.nsi_cross_mean_degree, P1, P2),
             attempt(b.nsi_cross_edge_density, P1, P2),
             attempt(b.nsi_cross_global_clustering, P1, P2),
-            attempt(b.nsi_cross_closeness_centrality, P1, P2)]
+            attempt(b.nsi_cross_closeness_centrality, P1, P2),
+            # round 4: the `_sparse` twins
+            attempt(b.cross_transitivity_sparse, P1, P2),
+            attempt(b.cross_local_clustering_sparse, P1, P2),
+            attempt(b.cross_global_clustering_sparse, P1, P2)]
 
 
 def res_request(A, R, perm):
@@ -241,7 +245,9 @@ def impl_res(R, perm):
             attempt(b.average_neighbors_admittive_degree), attempt(b.local_admittive_clustering),
             attempt(b.global_admittive_clustering), None,
             [float(quiet(b.vertex_current_flow_betweenness, i)) for i in range(n)],
-            attempt(b.edge_current_flow_betweenness)]
+            attempt(b.edge_current_flow_betweenness),
+            # round 4: maximum of the triangular store; hypotheses of res_currentflow_relabel_pinv
+            attempt(b.diameter_effective_resistance), "pinv"]
 
 
 def geo_request(A, directed, pos, D, perm):
@@ -262,6 +268,12 @@ def impl_geo(psn):
 def rec_request(x, metric, thr, perm):
     emb = ";".join(",".join(enc_rat(Fraction(float(v))) for v in row) for row in x)
     return f"rec {','.join(map(str, perm))} {metric} {enc_rat(Fraction(float(thr)))} 0 {emb}"
+
+
+def lattr_request(directed, n, links, W, perm):
+    Wq = [[Fraction(float(x)) for x in row] for row in W]
+    return (f"lattr {','.join(map(str, perm))} {int(directed)} {n} "
+            f"{','.join(f'{i}-{j}' for i, j in links) or '-'} {enc_ratmat(Wq)}")
 
 
 def compare_sections(kind, ans, impl, tol):
@@ -615,7 +627,7 @@ def build_via(path, Ap, directed, wp, Wp, ap, rng, tmpdir, grid=None, A0=None, W
     return net, E
 
 
-def construction_paths(ctx, A, directed, w, W, pos, lat, lon, perm, base, meas, full):
+def construction_paths(ctx, A, directed, w, W, pos, lat, lon, perm, base, meas, full, reqs, meta):
     """round 4 (seeded change C04-6): the reference network is built from the dense adjacency
     matrix in the original numbering; its renumbered twin is built through *every other*
     construction path from links listed in random order (edge lists, sparse matrices, injected
@@ -655,6 +667,12 @@ def construction_paths(ctx, A, directed, w, W, pos, lat, lon, perm, base, meas, 
             if probe is None:
                 ctx.count(f"path:{path}:not-applicable")
                 continue
+            if path != "FromIGraph_history":
+                # tie of `linkattr_relabel`: C05's model of set_link_attribute / link_attribute
+                # run on the links *as the twin's embedded graph object lists them*
+                reqs.append(lattr_request(directed, n, probe.graph.get_edgelist(), W, perm))
+                meta.append(("lattr", f"path:{path}", tuple(perm),
+                             [flat(quiet(probe.link_attribute, "w"))]))
             calls = [(m, ar, {k: ("v" if path == "FromIGraph_history" else v) for k, v in kw.items()})
                      for m, ar, kw in wcalls]
             if path == "FromIGraph_history":
@@ -843,7 +861,7 @@ def run(ctx):
             # round 4: every construction path, attributes set after construction
             if A.sum() > 0 and (not quick or n >= 5 or rng.random() < 0.15):
                 construction_paths(ctx, A, directed, w, W, pos, lat, lon, perm, base, meas,
-                                   full=(not quick) or rng.random() < 0.34)
+                                   (not quick) or rng.random() < 0.34, reqs, meta)
             # node-list arguments are renumbered with the network
             if not directed and n >= 3:
                 interacting(ctx, A, w, W, g0, perm, base)
@@ -855,7 +873,7 @@ def run(ctx):
     timeseries_networks(ctx, reqs, meta)
     model = common.driver(ctx.pid, reqs)
     bad_rel, bad_eval, nvals = [], [], 0
-    TOL = {"net": 1e-9, "cross": 1e-9, "res": 1e-6, "geo": 1e-5, "rec": 0.0}
+    TOL = {"net": 1e-9, "cross": 1e-9, "res": 1e-6, "geo": 1e-5, "rec": 0.0, "lattr": 0.0}
     r3_vals = {k: 0 for k in TOL}
     r3_bad = {k: [] for k in TOL}
     for ans, (kind, gi, perm, impl) in zip(model, meta):
@@ -898,7 +916,9 @@ def run(ctx):
                     "average, admittive degree / clustering; `isGinv` hypothesis of res_effRes_relabel)",
              "geo": "C12 model `Geo` (squared grid distances of renumbered coordinates, link-distance "
                     "measures)",
-             "rec": "C07 model `Recurrence` (recurrence-network adjacency of reordered state vectors)"}
+             "rec": "C07 model `Recurrence` (recurrence-network adjacency of reordered state vectors)",
+             "lattr": "C05 model `Repr` (set_link_attribute then link_attribute on the links in the "
+                      "order the twin's embedded igraph object lists them, every construction path)"}
     for k in TOL:
         ctx.obligation(f"correspondence: {names[k]} on the renumbered input == implementation on the "
                        f"renumbered object ({r3_vals[k]} values)", "correspondence", not r3_bad[k],
